@@ -207,6 +207,7 @@ func (v *vc) execCall(fr *frame, st *state, instr ssa.Instruction, c *ssa.CallCo
 		return
 	}
 	v.checkCalleeHolds(fr, st, instr, callee, c, args, site)
+	v.checkLookedUpReceiver(fr, st, callee, c, args, site)
 	if fc := v.eng.contractFor(callee); fc != nil && !fc.inline {
 		v.contractCall(fr, st, instr, fc, callee, c, args, res, site)
 		return
